@@ -1,43 +1,263 @@
 /-
 Props/C07 — property theorems for C07 (received packets reach exactly the matching callbacks, once, in order).
-Helper lemmas are in Proofs/C07.  Every theorem is about Model/C07, whose match condition, header
-expressions, iteration disciplines and constants are regenerated from /repo (Gen/C07).
+
+The statements are about `Model/C07` run in the variant `Variant.code`, i.e. with the iteration disciplines
+that Tie A extracted from the current source (Gen/C07); the specification vocabulary (`specMatches`,
+`SpecHolds`, `expectedDeliveries`, `AllPacketCallbacksQuiet`) is in `Spec/C07`, helper lemmas in `Proofs/C07`.
+`beh : Beh` is the behaviour of ALL callbacks: an arbitrary function from the history of the run to the list
+of actions (register / unregister / raise) the callback being invoked performs, so every theorem below holds
+for all scripts, all positions of raising callbacks and all stateful callbacks.
 -/
 import CfVerif.Proofs.C07
 namespace CfVerif.C07
 
 /-! ## Gen obligations: what the hand-written model assumes about the current source -/
 
-/-- the dispatch loop and `remove_header_callback` iterate over a copy of `self.cb` (fix D7) -/
+/-- the dispatch loop of `run` iterates over a copy of `self.cb` (fix D7) -/
 theorem gen_dispatch_snapshot : Gen.C07.dispatchSnapshot = true := by decide
+/-- `remove_header_callback` iterates over a copy of `self.cb` while removing (fix D7) -/
 theorem gen_remove_snapshot : Gen.C07.removeSnapshot = true := by decide
-/-- the port callback is invoked inside `try: ... except Exception:` whose handler does not leave the loop -/
+/-- the port callback is invoked inside `try: ... except Exception:`; neither handler nor loop body leaves the loop -/
 theorem gen_dispatch_catches : Gen.C07.dispatchCatches = true ∧ Gen.C07.dispatchNoEarlyExit = true := by decide
+/-- `run` is `while True:`; the all-packet callbacks run first, unguarded, through `Caller.call`, which
+iterates over a copy and has no exception handling of its own -/
+theorem gen_run_shape : Gen.C07.runLoopCond = "True" ∧ Gen.C07.allBeforePort = true ∧
+    Gen.C07.allCallGuarded = false ∧ Gen.C07.callerCallSnapshot = true ∧ Gen.C07.callerCallCatches = false ∧
+    Gen.C07.callerCallBody = "cb(*args)" := by decide
+/-- `Reg`'s fields are the namedtuple's fields, filled from the like-named parameters -/
+theorem gen_container : Gen.C07.containerInit =
+    ["port=port", "port_mask=port_mask", "channel=channel", "channel_mask=channel_mask", "callback=cb"] := by decide
+/-- `Reg.same`: removal compares all five fields with `==` and removes with `list.remove` -/
+theorem gen_remove_compares : Gen.C07.removeCompares =
+    ["callback==cb", "channel==channel", "channel_mask==channel_mask", "port==port", "port_mask==port_mask"] ∧
+    Gen.C07.removeBody = "self.cb.remove(x)" := by decide
+/-- positional parameter order assumed by `headerReg` / `portReg` and by the harness -/
+theorem gen_params : Gen.C07.addHeaderParams = ["cb", "port", "channel", "port_mask", "channel_mask"] ∧
+    Gen.C07.removeHeaderParams = Gen.C07.addHeaderParams ∧
+    Gen.C07.addPortParams = ["port", "cb"] ∧ Gen.C07.removePortParams = ["port", "cb"] ∧
+    Gen.C07.addPortPass = ["cb=cb", "port=port"] ∧ Gen.C07.removePortPass = ["cb=cb", "port=port"] := by decide
+/-- the public `Crazyflie.add_/remove_..._callback` methods pass their arguments through unchanged -/
+theorem gen_wrappers :
+    Gen.C07.cfAddPortCallback = ["cb=cb", "port=port", "params:port,cb"] ∧
+    Gen.C07.cfRemovePortCallback = Gen.C07.cfAddPortCallback ∧
+    Gen.C07.cfAddHeaderCallback = ["cb=cb", "channel=channel", "channel_mask=channel_mask", "port=port",
+      "port_mask=port_mask", "default:channel_mask=255", "default:port_mask=255",
+      "params:cb,port,channel,port_mask,channel_mask"] ∧
+    Gen.C07.cfRemoveHeaderCallback = Gen.C07.cfAddHeaderCallback := by decide
+/-- the wrapper defaults equal the handler's defaults, for add and for remove -/
+theorem gen_defaults : Gen.C07.defaultPortMask = 255 ∧ Gen.C07.defaultChanMask = 255 ∧
+    Gen.C07.removeDefaultPortMask = Gen.C07.defaultPortMask ∧
+    Gen.C07.removeDefaultChanMask = Gen.C07.defaultChanMask := by decide
+/-- `pk.port` / `pk.channel` read the fields computed from the header in the constructor -/
+theorem gen_getters : Gen.C07.portGetter = "self._port" ∧ Gen.C07.channelGetter = "self._channel" := by decide
+/-- `Caller.add_callback` / `remove_callback` as modelled by `callerAdd` / `callerRemove` -/
+theorem gen_caller : Gen.C07.callerAddCond = "(cb in self.callbacks) is False" ∧
+    Gen.C07.callerAddBody = "self.callbacks.append(cb)" ∧
+    Gen.C07.callerRemoveBody = ["self.callbacks.remove(cb)"] := by decide
 
 theorem code_is_fixed : Variant.code = Variant.fixed := by
   simp [Variant.code, Variant.fixed, gen_dispatch_snapshot, gen_remove_snapshot]
 
-/-! ## The property -/
+/-! ## 1. Matching: all 256 header bytes, all patterns and masks -/
 
-/-- Whatever the callbacks do while the packet is being dispatched, the callbacks invoked for a packet are
-exactly the registrations matching its header that were registered when the dispatch started, each once,
-in registration order. -/
-theorem dispatch_calls (beh : Beh) (hdr : Nat) (st : St) :
-    callsOf (dispatch Variant.code beh hdr st).trace = callsOf st.trace ++ st.regs.filter (·.matches hdr) := by
+/-- A registration matches a header byte iff its port equals the header's port nibble under the port mask
+and its channel equals the header's two channel bits under the channel mask. -/
+theorem match_iff (r : Reg) (hdr : Nat) (hh : hdr < 256) :
+    r.matches hdr = true ↔ r.port = (hdr / 16) &&& r.portMask ∧ r.chan = (hdr % 4) &&& r.chanMask := by
+  rw [matches_eq_spec r hh]; simp [specMatches]
+
+/-- The same bit by bit: on every bit the pattern equals the packet's bit where the mask is set and is 0
+where it is clear (so bits outside the mask never match a non-zero pattern bit). -/
+theorem match_bits (r : Reg) (hdr : Nat) (hh : hdr < 256) :
+    r.matches hdr = true ↔
+      (∀ i, r.port.testBit i = ((hdr / 16).testBit i && r.portMask.testBit i)) ∧
+      (∀ i, r.chan.testBit i = ((hdr % 4).testBit i && r.chanMask.testBit i)) := by
+  rw [match_iff r hdr hh]
+  constructor
+  · rintro ⟨h1, h2⟩
+    exact ⟨fun i => by rw [h1, Nat.testBit_and], fun i => by rw [h2, Nat.testBit_and]⟩
+  · rintro ⟨h1, h2⟩
+    exact ⟨Nat.eq_of_testBit_eq fun i => by rw [h1 i, Nat.testBit_and],
+           Nat.eq_of_testBit_eq fun i => by rw [h2 i, Nat.testBit_and]⟩
+
+theorem nibble_and_255 : ∀ h : Fin 256, (h.val / 16) &&& 255 = h.val / 16 := by decide +kernel
+
+/-- A port callback (`add_port_callback(port, cb)`) gets exactly the packets of that port, on every channel. -/
+theorem port_callback_matches_iff (port cb hdr : Nat) (hh : hdr < 256) :
+    (portReg port cb).matches hdr = true ↔ hdr / 16 = port := by
+  rw [match_iff _ _ hh]
+  have := nibble_and_255 ⟨hdr, hh⟩
+  simp only at this
+  simp only [portReg, headerReg, Gen.C07.addPortPortMask, Gen.C07.addPortChannel, Gen.C07.addPortChanMask,
+    this, Nat.and_zero, and_true]
+  exact eq_comm
+
+/-- `remove_port_callback` / default-mask `remove_header_callback` look for exactly what the corresponding add
+registered. -/
+theorem remove_pattern_is_add_pattern (port cb chan : Nat) :
+    portRegRemove port cb = portReg port cb ∧ headerRegRemove cb port chan = headerReg cb port chan := by
+  constructor <;> rfl
+
+/-! ## 2. One packet: exactly once, to exactly the matching registrations, in order -/
+
+/-- Whatever the callbacks do while the packet is being dispatched (register, unregister - themselves
+included -, raise), the port callbacks invoked for it are exactly the registrations that were registered
+when its dispatch started and match its header, each once, in registration order. -/
+theorem dispatch_calls (beh : Beh) (hdr : Nat) (hh : hdr < 256) (st : St) :
+    callsOf (newEvents st (dispatch Variant.code beh hdr st)) = st.regs.filter (specMatches · hdr) := by
   rw [code_is_fixed]
-  exact dispatchSnap_calls Variant.fixed beh hdr st.regs st
+  simp only [dispatch, Variant.fixed, if_true]
+  obtain ⟨ext, hext⟩ := dispatchSnap_ext Variant.fixed beh hdr st.regs st
+  have hc := dispatchSnap_calls Variant.fixed beh hdr st.regs st
+  simp only [Variant.fixed] at hext hc
+  rw [newEvents_of_ext hext, ← filter_matches_eq_spec _ hh]
+  rw [hext, callsOf, List.filterMap_append] at hc
+  exact List.append_cancel_left hc
 
-/-! ## The code before the fix (D7) -/
+/-- The dispatch specification of DESIGN Appendix A, for all sets of distinct registrations, all scripts,
+all 256 headers. -/
+theorem dispatch_exactly_once (regs : List Reg) (hnd : regs.Nodup) (beh : Beh) (hdr : Nat) (hh : hdr < 256)
+    (st : St) (hregs : st.regs = regs) :
+    SpecHolds regs hdr (newEvents st (dispatch Variant.code beh hdr st)) :=
+  spec_of_calls hnd (hregs ▸ dispatch_calls beh hdr hh st)
+
+/-- A registration that is not in the registry when the dispatch starts is not called for that packet. -/
+theorem not_registered_not_called (beh : Beh) (hdr : Nat) (hh : hdr < 256) (st : St) (r : Reg)
+    (hr : r ∉ st.regs) : r ∉ callsOf (newEvents st (dispatch Variant.code beh hdr st)) := by
+  rw [dispatch_calls beh hdr hh st]
+  exact fun h => hr (List.mem_filter.mp h).1
+
+/-! ## 3. A raising port callback is isolated -/
+
+/-- Which callbacks receive the packet does not depend on what any callback does - in particular not on
+whether, where, or how many of them raise: two arbitrary behaviours give the same calls.  And the dispatcher
+survives the dispatch whatever the port callbacks do. -/
+theorem raise_isolated (beh beh' : Beh) (hdr : Nat) (hh : hdr < 256) (st : St) :
+    callsOf (newEvents st (dispatch Variant.code beh hdr st))
+      = callsOf (newEvents st (dispatch Variant.code beh' hdr st)) ∧
+    (dispatch Variant.code beh hdr st).dead = st.dead := by
+  refine ⟨by rw [dispatch_calls beh hdr hh, dispatch_calls beh' hdr hh], ?_⟩
+  rw [code_is_fixed]
+  exact dispatchSnap_dead Variant.fixed beh hdr st.regs st
+
+/-- ... nor stops processing of later packets: as long as no *all-packet* callback raises (those are
+called outside the try/except, see docs), every packet of the sequence is taken from the link and
+dispatched, in arrival order, and the thread is alive afterwards - for arbitrary port-callback behaviour. -/
+theorem later_packets_processed (beh : Beh) (hq : AllPacketCallbacksQuiet beh) (st : St)
+    (halive : st.dead = false) (hdrs : List Nat) :
+    (run Variant.code beh st hdrs).dead = false ∧
+    pktsOf (run Variant.code beh st hdrs).trace = pktsOf st.trace ++ hdrs :=
+  run_processes_all Variant.code gen_dispatch_snapshot beh hq hdrs st halive
+
+/-! ## 4. Removing a registration stops deliveries for that registration only -/
+
+/-- `remove_header_callback` removes every copy of exactly that registration and keeps all others, in order. -/
+theorem remove_only_that_registration (l : List Reg) (r : Reg) :
+    Variant.code.remove l r = l.filter (· ≠ r) ∧
+    r ∉ Variant.code.remove l r ∧
+    (∀ x, x ≠ r → (Variant.code.remove l r).count x = l.count x) ∧
+    List.Sublist (Variant.code.remove l r) l := by
+  have h : Variant.code.remove l r = l.filter (· ≠ r) := by
+    simp only [Variant.remove, Variant.code, gen_remove_snapshot, if_true]
+    exact removeHeaderCallback_eq_filter l r
+  refine ⟨h, ?_, ?_, ?_⟩
+  · rw [h]; simp
+  · intro x hx; rw [h]; exact List.count_filter (by simpa using hx)
+  · rw [h]; exact List.filter_sublist
+
+/-- The deliveries of a later packet are what they would have been, minus the removed registration. -/
+theorem dispatch_after_remove (beh : Beh) (hdr : Nat) (hh : hdr < 256) (st : St) (r : Reg) :
+    callsOf (newEvents { st with regs := Variant.code.remove st.regs r }
+        (dispatch Variant.code beh hdr { st with regs := Variant.code.remove st.regs r }))
+      = (st.regs.filter (specMatches · hdr)).filter (· ≠ r) := by
+  rw [dispatch_calls beh hdr hh]
+  simp only [(remove_only_that_registration st.regs r).1, List.filter_filter]
+  congr 1; funext x; exact Bool.and_comm _ _
+
+/-! ## 5. Packet sequences: arrival order -/
+
+/-- For every packet sequence and all behaviours: the deliveries of the run are, packet by packet in
+arrival order, the packet followed by the calls to exactly the registrations matching it at the time its
+port dispatch starts, in registration order (`expectedDeliveries`, Spec/C07). -/
+theorem packets_in_order (beh : Beh) (st : St) (hdrs : List Nat) (hb : ∀ h ∈ hdrs, h < 256) :
+    deliveries (run Variant.code beh st hdrs).trace
+      = deliveries st.trace ++ expectedDeliveries Variant.code beh st hdrs :=
+  run_deliveries Variant.code gen_dispatch_snapshot beh hdrs st hb
+
+/-- Closed form when the callbacks do not touch the registry (they may raise, at any position, any number of
+them) and there are no all-packet callbacks: every packet, in arrival order, goes to exactly the matching
+registrations, in registration order; the registry is unchanged and the dispatcher alive. -/
+theorem packets_in_order_static (beh : Beh) (hs : ∀ tr, ∀ a ∈ beh tr, a = Act.raise) (st : St)
+    (halive : st.dead = false) (hall : st.all = []) (hdrs : List Nat) (hb : ∀ h ∈ hdrs, h < 256) :
+    deliveries (run Variant.code beh st hdrs).trace = deliveries st.trace ++
+      hdrs.flatMap (fun h => Ev.pkt h :: (st.regs.filter (specMatches · h)).map Ev.call) ∧
+    (run Variant.code beh st hdrs).regs = st.regs ∧ (run Variant.code beh st hdrs).dead = false :=
+  run_static Variant.code gen_dispatch_snapshot beh hs hdrs st halive hall hb
+
+/-! ## 6. The all-packet callbacks (`Caller`) -/
+
+/-- `Caller.add_callback` never creates a duplicate. -/
+theorem caller_add_no_duplicates (l : List Nat) (c : Nat) (h : l.Nodup) : (callerAdd l c).Nodup :=
+  callerAdd_nodup l c h
+
+/-- `Caller.remove_callback` removes exactly that callback; removing an unregistered one is a `ValueError`. -/
+theorem caller_remove_only_that (l : List Nat) (c : Nat) (h : l.Nodup) :
+    (c ∈ l → ∃ l', callerRemove l c = some l' ∧ c ∉ l' ∧ l' = l.filter (· ≠ c)) ∧
+    (c ∉ l → callerRemove l c = none) :=
+  callerRemove_spec l c h
+
+/-- `Caller.call` iterates over a copy: every callback registered when the call starts is invoked exactly
+once, in registration order, whatever the callbacks add or remove meanwhile (as long as none raises). -/
+theorem caller_call_snapshot (v : Variant) (beh : Beh) (hq : AllPacketCallbacksQuiet beh) (st : St) :
+    allCallsOf (callerCall v beh st).trace = allCallsOf st.trace ++ st.all ∧
+    (callerCall v beh st).dead = st.dead :=
+  ⟨(callerGo_quiet v beh hq st.all st).2, (callerGo_quiet v beh hq st.all st).1⟩
+
+/-! ## 7. The code before the fix (D7): live-list iteration violates the specification -/
 
 def regA : Reg := portReg 9 1
 def regB : Reg := portReg 9 2
 def regC : Reg := portReg 9 3
-/-- callback 1 unregisters itself when called -/
+/-- callback 1 unregisters itself when called (a one-shot callback) -/
 def behSelfRemove : Beh := fun tr => if tr.getLast? = some (.call regA) then [.remove regA] else []
 
-/-- with the live-list iteration `[A, B, C]`, `A` removing itself, delivers to `A` and `C` only -/
+/-- with live-list iteration, `[A, B, C]` on one port and `A` removing itself delivers to `A` and `C` only -/
 theorem live_dispatch_skips :
     callsOf (dispatch Variant.original behSelfRemove 0x90 { St.init with regs := [regA, regB, regC] }).trace
       = [regA, regC] := by decide
+
+/-- the unchanged code does not satisfy the dispatch specification (D7) -/
+theorem live_dispatch_counterexample :
+    ¬ (∀ (regs : List Reg) (beh : Beh) (hdr : Nat), regs.Nodup → hdr < 256 →
+        SpecHolds regs hdr (newEvents { St.init with regs := regs }
+          (dispatch Variant.original beh hdr { St.init with regs := regs }))) := by
+  intro h
+  exact absurd (h [regA, regB, regC] behSelfRemove 0x90 (by decide) (by decide)) (by decide)
+
+/-- the old remove-while-iterating loop skipped the entry following a removed one -/
+theorem live_remove_counterexample :
+    removeHeaderCallbackLive [regA, regA, regB] regA = [regA, regB] ∧
+    removeHeaderCallback [regA, regA, regB] regA = [regB] := by decide
+
+/-! ## Non-vacuity: concrete instances of the hypotheses -/
+
+example : [regA, regB, regC].Nodup := by decide
+example : (0x93 : Nat) < 256 ∧ regB.matches 0x93 = true ∧ (portReg 8 2).matches 0x93 = false := by decide
+/-- the repaired dispatcher on the D7 witness: all three get the packet, then `A` is gone -/
+example : callsOf (run Variant.fixed behSelfRemove { St.init with regs := [regA, regB, regC] } [0x90, 0x93]).trace
+    = [regA, regB, regC, regB, regC] := by decide
+example : SpecHolds [regA, regB, regC] 0x90 (newEvents { St.init with regs := [regA, regB, regC] }
+    (dispatch Variant.fixed behSelfRemove 0x90 { St.init with regs := [regA, regB, regC] })) := by decide
+/-- a behaviour satisfying `AllPacketCallbacksQuiet` in which port callbacks do raise -/
+example : AllPacketCallbacksQuiet (fun tr => match tr.getLast? with | some (.call _) => [.raise] | _ => []) := by
+  intro tr c h; simp [h, NoRaise]
+/-- ... and a static behaviour (hypothesis of `packets_in_order_static`) that raises in every port callback -/
+example : ∀ tr, ∀ a ∈ (fun tr : List Ev => match tr.getLast? with | some (.call _) => [Act.raise] | _ => []) tr,
+    a = Act.raise := by
+  intro tr a; dsimp only; split <;> simp
+example : deliveries (run Variant.fixed (fun tr => match tr.getLast? with | some (.call _) => [.raise] | _ => [])
+    { St.init with regs := [regA, portReg 8 7, regC] } [0x90, 0x81]).trace
+    = [.pkt 0x90, .call regA, .call regC, .pkt 0x81, .call (portReg 8 7)] := by decide
+example : (Reg.mk 8 0x0C 1 0x01 5).matches 0xB7 = true ∧ (Reg.mk 8 0x0C 1 0x01 5).matches 0xF6 = false := by decide
 
 end CfVerif.C07
